@@ -4,6 +4,8 @@ import ZvbiModel.Demux.CorExtract
 -/
 namespace Zvbi.Demux
 
+variable {cfg : SrcCfg}
+
 /-- the frame state `demux_pes_packet_frame` starts a round with -/
 def fsStart (fs : FS) : FS :=
   if fs.newFrame then { fs with frame := resetFrame fs.frame, framePts := fs.packetPts, newFrame := false } else fs
@@ -16,8 +18,8 @@ def xrPR : XR → PR
 
 /-- a round in which `extract_data_units` does not say -1 ends the function -/
 theorem pesPacketFrame_round (n : Nat) (cb se : Bool) (fs : FS) (d : Bytes) (f : Frame) (r : XR) (rest : Bytes)
-    (hx : extract (fsStart fs).frame d = (f, r, rest)) (hr : r ≠ .newFrame) :
-    pesPacketFrame (n + 1) cb se fs d = ({ fsStart fs with frame := f }, [], xrPR r, rest) := by
+    (hx : extract cfg (fsStart fs).frame d = (f, r, rest)) (hr : r ≠ .newFrame) :
+    pesPacketFrame cfg (n + 1) cb se fs d = ({ fsStart fs with frame := f }, [], xrPR r, rest) := by
   unfold pesPacketFrame
   simp only []
   unfold fsStart at hx
@@ -30,17 +32,17 @@ theorem pesPacketFrame_round (n : Nat) (cb se : Bool) (fs : FS) (d : Bytes) (f :
 
 /-- a round in which it says -1 -/
 theorem pesPacketFrame_nf (n : Nat) (cb se : Bool) (fs : FS) (d : Bytes) (f : Frame) (rest : Bytes)
-    (hx : extract (fsStart fs).frame d = (f, .newFrame, rest)) :
-    pesPacketFrame (n + 1) cb se fs d =
+    (hx : extract cfg (fsStart fs).frame d = (f, .newFrame, rest)) :
+    pesPacketFrame cfg (n + 1) cb se fs d =
       (if !cb then
-        if se ∧ f.lines.isEmpty then pesPacketFrame n cb se { fsStart fs with frame := f, newFrame := true } rest
+        if se ∧ f.lines.isEmpty then pesPacketFrame cfg n cb se { fsStart fs with frame := f, newFrame := true } rest
         else ({ fsStart fs with frame := f, newFrame := true }, [], .callback, rest)
       else
-        ((pesPacketFrame n cb se { fsStart fs with frame := f, newFrame := true } rest).1,
+        ((pesPacketFrame cfg n cb se { fsStart fs with frame := f, newFrame := true } rest).1,
          { pts := (fsStart fs).framePts, lines := f.lines } ::
-           (pesPacketFrame n cb se { fsStart fs with frame := f, newFrame := true } rest).2.1,
-         (pesPacketFrame n cb se { fsStart fs with frame := f, newFrame := true } rest).2.2.1,
-         (pesPacketFrame n cb se { fsStart fs with frame := f, newFrame := true } rest).2.2.2)) := by
+           (pesPacketFrame cfg n cb se { fsStart fs with frame := f, newFrame := true } rest).2.1,
+         (pesPacketFrame cfg n cb se { fsStart fs with frame := f, newFrame := true } rest).2.2.1,
+         (pesPacketFrame cfg n cb se { fsStart fs with frame := f, newFrame := true } rest).2.2.2)) := by
   conv => lhs; unfold pesPacketFrame
   simp only []
   unfold fsStart at hx ⊢
@@ -64,8 +66,8 @@ theorem fsStart_lines (fs : FS) (h : fs.frame.lines.length ≤ 64) : (fsStart fs
 
 /-- a round that starts at a frame start -/
 theorem pesPacketFrame_new (n : Nat) (cb se : Bool) (fs : FS) (d : Bytes) (f : Frame) (r : XR) (rest : Bytes)
-    (hn : fs.newFrame = true) (hx : extract {} d = (f, r, rest)) (hr : r ≠ .newFrame) :
-    pesPacketFrame (n + 1) cb se fs d = (fsAt fs.packetPts f, [], xrPR r, rest) := by
+    (hn : fs.newFrame = true) (hx : extract cfg {} d = (f, r, rest)) (hr : r ≠ .newFrame) :
+    pesPacketFrame cfg (n + 1) cb se fs d = (fsAt fs.packetPts f, [], xrPR r, rest) := by
   have := pesPacketFrame_round n cb se fs d f r rest (by rw [fsStart_new fs hn]; exact hx) hr
   rw [this, fsStart_new fs hn]
   rfl
@@ -81,15 +83,15 @@ def payFin (cfg : SrcCfg) (la : Nat) (fs1 : FS) (outs : List FrameOut) :
 
 theorem payloadRes_fin (cb : Bool) (cfg : SrcCfg) (sk la : Nat) (fs fs1 : FS) (d : Bytes) (outs : List FrameOut)
     (r : XR) (rest : Bytes) (hr : r = .done ∨ r = .err)
-    (h : pesPacketFrame 3 cb cfg.corSkipsEmpty { fs with frame := { fs.frame with nDu := 0 } } d = (fs1, outs, xrPR r, rest)) :
+    (h : pesPacketFrame cfg 3 cb cfg.corSkipsEmpty { fs with frame := { fs.frame with nDu := 0 } } d = (fs1, outs, xrPR r, rest)) :
     payloadRes cb cfg sk la fs d = payFin cfg la fs1 outs r := by
   unfold payloadRes
   rw [h]
   rcases hr with rfl | rfl <;> rfl
 
 theorem extract_done_or_err (f : Frame) (d : Bytes) (f2 : Frame) (r : XR) (rest : Bytes) (hd : 2 ≤ d.length)
-    (hx : extract f d = (f2, r, rest)) (hnn : r ≠ .newFrame) : r = .done ∨ r = .err := by
-  have hnf := extract_no_fault f d hd
+    (hx : extract cfg f d = (f2, r, rest)) (hnn : r ≠ .newFrame) : r = .done ∨ r = .err := by
+  have hnf := extract_no_fault (cfg := cfg) f d hd
   rw [hx] at hnf
   cases r with
   | done => exact Or.inl rfl
@@ -113,25 +115,25 @@ theorem payFin_shape (cfg : SrcCfg) (la : Nat) (fs1 : FS) (outs : List FrameOut)
 stale frame) delivers no frame with lines and ends in the state in which the callback variant ends
 when it continues at `rest` with a reset frame - up to what a frame start forgets. -/
 theorem payload_restart (cfg : SrcCfg) (hse : cfg.corSkipsEmpty = true) (hpd : cfg.pesDiscards = true) (la : Nat)
-    (f f1 : Frame) (d rest : Bytes) (hn : f.nDu = 0) (hx : extract f d = (f1, .newFrame, rest)) :
-    ∃ f2 r2 rest2, extract {} rest = (f2, r2, rest2) ∧ (r2 = .done ∨ r2 = .err) ∧
+    (f f1 : Frame) (d rest : Bytes) (hn : f.nDu = 0) (hx : extract cfg f d = (f1, .newFrame, rest)) :
+    ∃ f2 r2 rest2, extract cfg {} rest = (f2, r2, rest2) ∧ (r2 = .done ∨ r2 = .err) ∧
       ∀ (fsH : FS) (sk2 : Nat) (cb : Bool), fsH.newFrame = true →
         ∃ fs'' outs'', payloadRes cb cfg sk2 la fsH d = ((la, 48), fs'', outs'', none) ∧
           outs''.filter nonEmpty = [] ∧
           FsForget 48 fs'' (payFin cfg la (fsAt fsH.packetPts f2) [] r2).2.1 ∧
           fs''.frame.lines.length ≤ 64 := by
   have haft := extract_after_newFrame f {} f1 d rest ⟨rfl, rfl, rfl, rfl⟩ hx
-  rcases hx2 : extract {} rest with ⟨f2, r2, rest2⟩
+  rcases hx2 : extract cfg {} rest with ⟨f2, r2, rest2⟩
   rw [hx2] at haft
   have hr2 := extract_done_or_err {} rest f2 r2 rest2 haft.1 hx2 haft.2
   have hl2 : f2.lines.length ≤ 64 := by
-    have := extract_lines {} rest (Nat.zero_le _); rw [hx2] at this; exact this
+    have := extract_lines (cfg := cfg) {} rest (Nat.zero_le _); rw [hx2] at this; exact this
   refine ⟨f2, r2, rest2, rfl, hr2, ?_⟩
   intro fsH sk2 cb hnew
   have hnew0 : ({ fsH with frame := { fsH.frame with nDu := 0 } } : FS).newFrame = true := hnew
   obtain ⟨x, hc | hc | ⟨f3, rest3, hc1, hc2⟩⟩ := extract_restart f d f1 rest hn hx
   · -- -1 again at `rest`, no lines: one more round from `rest` with a reset frame
-    have hx' : extract (fsStart { fsH with frame := { fsH.frame with nDu := 0 } }).frame d = (frX x, .newFrame, rest) := by
+    have hx' : extract cfg (fsStart { fsH with frame := { fsH.frame with nDu := 0 } }).frame d = (frX x, .newFrame, rest) := by
       rw [fsStart_new _ hnew0]; exact hc
     have hp := pesPacketFrame_nf 2 cb cfg.corSkipsEmpty _ d (frX x) rest hx'
     have hp2 := pesPacketFrame_new 1 cb cfg.corSkipsEmpty
@@ -194,9 +196,9 @@ theorem payload_cor (cfg : SrcCfg) (hse : cfg.corSkipsEmpty = true) (hpd : cfg.p
         ∀ (fsH : FS) (sk2 : Nat) (cb : Bool), fsH.newFrame = true → fsH.packetPts = fs1.packetPts →
           ∃ fs'' outs'', payloadRes cb cfg sk2 la fsH d = ((la, 48), fs'', outs'', none) ∧
             outs''.filter nonEmpty = [] ∧ FsForget 48 fs'' fs' ∧ fs''.frame.lines.length ≤ 64) := by
-  rcases hx : extract (fsStart { fs with frame := { fs.frame with nDu := 0 } }).frame d with ⟨f, r, rest⟩
+  rcases hx : extract cfg (fsStart { fs with frame := { fs.frame with nDu := 0 } }).frame d with ⟨f, r, rest⟩
   have hlf : f.lines.length ≤ 64 := by
-    have := extract_lines (fsStart { fs with frame := { fs.frame with nDu := 0 } }).frame d (fsStart_lines _ hL)
+    have := extract_lines (cfg := cfg) (fsStart { fs with frame := { fs.frame with nDu := 0 } }).frame d (fsStart_lines _ hL)
     rw [hx] at this; exact this
   by_cases hr : r = .newFrame
   · subst hr
@@ -227,7 +229,7 @@ theorem payload_cor (cfg : SrcCfg) (hse : cfg.corSkipsEmpty = true) (hpd : cfg.p
       · rw [h1]; rcases hr2 with rfl | rfl <;> rfl
       · rw [h2]; exact payFin_shape cfg la _ [] r2
       · simp [nonEmpty, hemp]
-      · have := extract_lines {} rest (Nat.zero_le _); rw [hx2] at this; exact this
+      · have := extract_lines (cfg := cfg) {} rest (Nat.zero_le _); rw [hx2] at this; exact this
     · right
       rw [if_neg (fun h => hemp h.2)] at hf
       have h2 : payloadRes false cfg sk la fs d = ((sk, la), fs2, [], some .callback) := by
@@ -235,7 +237,7 @@ theorem payload_cor (cfg : SrcCfg) (hse : cfg.corSkipsEmpty = true) (hpd : cfg.p
       have hne : fs2.frame.lines ≠ [] := by
         rw [hfs2f]; intro h; rw [h] at hemp; exact hemp rfl
       have hl2 : f2.lines.length ≤ 64 := by
-        have := extract_lines {} rest (Nat.zero_le _); rw [hx2] at this; exact this
+        have := extract_lines (cfg := cfg) {} rest (Nat.zero_le _); rw [hx2] at this; exact this
       refine ⟨fs2, (payFin cfg la (fsAt fs2.packetPts f2) [] r2).2.1, h2, hfs2n, hne, by rw [hfs2f]; exact hlf,
         payFin_lines cfg la _ [] r2 hl2, ?_, ?_⟩
       · rw [h1, hfs2p, hfs2f]; rcases hr2 with rfl | rfl <;> rfl
@@ -258,15 +260,15 @@ theorem payload_cor (cfg : SrcCfg) (hse : cfg.corSkipsEmpty = true) (hpd : cfg.p
 theorem payload_new_no_callback (cfg : SrcCfg) (hse : cfg.corSkipsEmpty = true) (sk la : Nat) (fs : FS) (d : Bytes)
     (hd : 2 ≤ d.length) (hn : fs.newFrame = true) : (payloadRes false cfg sk la fs d).2.2.2 = none := by
   have hn0 : ({ fs with frame := { fs.frame with nDu := 0 } } : FS).newFrame = true := hn
-  rcases hx : extract {} d with ⟨f, r, rest⟩
+  rcases hx : extract cfg {} d with ⟨f, r, rest⟩
   by_cases hr : r = .newFrame
   · subst hr
     have hl : f.lines = [] := extract_newFrame_lines {} d f rest rfl hx
     have haft := extract_after_newFrame {} {} f d rest ⟨rfl, rfl, rfl, rfl⟩ hx
-    rcases hx2 : extract {} rest with ⟨f2, r2, rest2⟩
+    rcases hx2 : extract cfg {} rest with ⟨f2, r2, rest2⟩
     rw [hx2] at haft
     have hr2 := extract_done_or_err {} rest f2 r2 rest2 haft.1 hx2 haft.2
-    have hx' : extract (fsStart { fs with frame := { fs.frame with nDu := 0 } }).frame d = (f, .newFrame, rest) := by
+    have hx' : extract cfg (fsStart { fs with frame := { fs.frame with nDu := 0 } }).frame d = (f, .newFrame, rest) := by
       rw [fsStart_new _ hn0]; exact hx
     have hp := pesPacketFrame_nf 2 false cfg.corSkipsEmpty _ d f rest hx'
     have hp2 := pesPacketFrame_new 1 false cfg.corSkipsEmpty
